@@ -189,13 +189,20 @@ func (c *ChunkBuffer) ChunkedString(level, offset int) string {
 		// prefix operator
 		case Prefix:
 			if next := c.nextChunk(); next != nil {
-				buf.WriteString(c.chunkString(state, chunk.buffer+next.buffer))
+				if next.Type == Group {
+					// prefix operator on a grouped expression like !(a && b)
+					if inner := c.nextChunk(); inner != nil {
+						buf.WriteString(c.chunkGroupOperator(state, inner, chunk.buffer))
+					}
+				} else {
+					buf.WriteString(c.chunkString(state, chunk.buffer+next.buffer))
+				}
 			}
 		// group operator
 		case Group:
 			// If group operator, inside expressions should be printed on the same line
 			if next := c.nextChunk(); next != nil {
-				buf.WriteString(c.chunkGroupOperator(state, next))
+				buf.WriteString(c.chunkGroupOperator(state, next, ""))
 			}
 		// infix operator
 		case Infix:
@@ -297,27 +304,45 @@ func (c *ChunkBuffer) chunkLineComment(state *ChunkState, chunk *Chunk) string {
 	return buf.String()
 }
 
-// chunkGroupOperator() returns chunk group expression string
-func (c *ChunkBuffer) chunkGroupOperator(state *ChunkState, chunk *Chunk) string {
-	expr := chunk.buffer
+// chunkGroupOperator() returns chunk group expression string.
+// The chunk argument is the first chunk inside the parenthesis, prefix is the prefix operator of the group if any.
+// Groups may be nested, the expression ends at the parenthesis that closes the outermost one.
+func (c *ChunkBuffer) chunkGroupOperator(state *ChunkState, chunk *Chunk, prefix string) string {
+	var expr string
+	var depth int
+	noSpace := true
 
-	for {
-		next := c.nextChunk()
-		if next == nil {
-			return c.chunkString(state, "("+expr+")")
-		}
-
+	for next := chunk; next != nil; next = c.nextChunk() {
 		switch {
 		case next.isLineComment():
+			if !noSpace {
+				expr += " "
+			}
 			expr += next.buffer
 			expr += c.nextLine(state)
 			state.reset()
-		case next.buffer == ")":
-			return c.chunkString(state, "("+expr+")")
-		default:
-			expr += " " + next.buffer
+			noSpace = true
+			continue
+		case next.Type == Group && next.buffer == ")":
+			if depth == 0 {
+				return c.chunkString(state, prefix+"("+expr+")")
+			}
+			depth--
+			expr += ")"
+			noSpace = false
+			continue
+		}
+		if !noSpace {
+			expr += " "
+		}
+		expr += next.buffer
+		// No white space after an opening parenthesis and a prefix operator
+		noSpace = next.Type == Prefix || next.Type == Group
+		if next.Type == Group {
+			depth++
 		}
 	}
+	return c.chunkString(state, prefix+"("+expr+")")
 }
 
 // chunkString() returns chunked string
